@@ -23,7 +23,9 @@ fn observe(fx: &NodeFx) -> Obs {
     // velocity counters are explored by the velocity harness (C12); leaving them out keeps
     // the node graph small (every invoice amount would otherwise multiply the states)
     full["node"].as_object_mut().unwrap().remove("vc");
-    full["node"].as_object_mut().unwrap().remove("fvc");
+    if !TRACK_FEE.load(std::sync::atomic::Ordering::Relaxed) {
+        full["node"].as_object_mut().unwrap().remove("fvc");
+    }
     Obs {
         full,
         store_exact: dump_to_json(&d),
@@ -50,8 +52,16 @@ fn restart_diff(fx: &NodeFx) -> (bool, Vec<String>, Option<NodeFx>, Value) {
     }
 }
 
+fn new_fx() -> NodeFx {
+    if TRACK_FEE.load(std::sync::atomic::Ordering::Relaxed) {
+        NodeFx::new(Network::Regtest, Some(feelimit_policy(Network::Regtest)))
+    } else {
+        NodeFx::new(Network::Regtest, None)
+    }
+}
+
 fn build(path: &[Value]) -> NodeFx {
-    let mut fx = NodeFx::new(Network::Regtest, None);
+    let mut fx = new_fx();
     for r in path {
         if r["op"] == "Restart" {
             if let Ok(f2) = fx.restart_copy() {
@@ -77,6 +87,8 @@ fn explore() {
     let threads = arg_u64("threads", 16) as usize;
     let max_states = arg_u64("max-states", 200_000);
     let max_chans = arg_u64("max-chans", 2);
+    // "feelimit": a fee velocity limit of FEE_LIMIT Withdraw fees per hour, counted fees are part of the state
+    TRACK_FEE.store(arg_or("policy", "default") == "feelimit", std::sync::atomic::Ordering::Relaxed);
     std::fs::create_dir_all(&out).unwrap();
     let shared = Arc::new((Mutex::new(Shared { queue: VecDeque::new(), seen: HashMap::new(), active: 0, states: 0 }), Condvar::new()));
     {
@@ -204,7 +216,8 @@ fn explore() {
 /// node path --requests FILE: apply a request sequence to a fresh node, print every reply (replays, probing)
 fn path() {
     let reqs: Vec<Value> = serde_json::from_str(&std::fs::read_to_string(arg("requests").unwrap()).unwrap()).unwrap();
-    let mut fx = NodeFx::new(Network::Regtest, None);
+    TRACK_FEE.store(arg_or("policy", "default") == "feelimit", std::sync::atomic::Ordering::Relaxed);
+    let mut fx = new_fx();
     for r in reqs {
         let before = observe(&fx);
         let resp = if r["op"] == "Restart" {
